@@ -142,8 +142,14 @@ Definition ComputeCk_dom := ComputeCk_with ck_prod_dom.
    The system objects.  _ck = [] means "not computed yet" (the code tests _ck.size() == 0). *)
 Record IntRNS := mkIntRNS { i_primes : list Z; i_prod : Z; i_ck : list Z }.
 
-(* IntRNSsystem(const array& primes) / templated variant: _primes(primes), _prod(one), _ck(0) *)
+(* IntRNSsystem(const array& primes): _primes(primes), _prod(one), _ck(0) *)
 Definition int_mk (primes : list Z) : IntRNS := mkIntRNS primes 1 [].
+(* the templated converting constructor IntRNSsystem(const Container<TT,Alloc<TT>>&): how its initialiser list sizes _ck
+   is READ FROM THE SOURCE by the check:  _ck(0) = CkEmpty (the unchanged tree);  _ck(inprimes.size()) = CkSized, i.e. a
+   table of default-constructed (zero) Integers that ComputeCk() then takes for "already computed" *)
+Inductive ckinit := CkEmpty | CkSized.
+Definition int_mk_tt (ci : ckinit) (primes : list Z) : IntRNS :=
+  mkIntRNS primes 1 (match ci with CkEmpty => [] | CkSized => repeat 0 (length primes) end).
 (* IntRNSsystem(): _primes(0), _prod(one), _ck(0) *)
 Definition int_default : IntRNS := mkIntRNS [] 1 [].
 
@@ -303,18 +309,19 @@ Inductive hist :=
 
 Definition ones (n : nat) : list Z := repeat 1 n.
 
-(* the object each history of the harness yields; `other` is the unrelated system used to warm caches *)
-Definition int_obtain (src : cksrc) (h : hist) (primes other : list Z) : IntRNS :=
+(* the object each history of the harness yields; `other` is the unrelated system used to warm caches; `mk` is the
+   constructor the harness used for the system under test (plain, or templated from a container of native integers) *)
+Definition int_obtain (src : cksrc) (mk : list Z -> IntRNS) (h : hist) (primes other : list Z) : IntRNS :=
   let warm S := fst (int_product (fst (int_RnsToRing S (ones (length (i_primes S)))))) in
   match h with
-  | Hfresh => int_mk primes
-  | Hreuse => fst (int_RnsToRing (int_mk primes) (ones (length primes)))
-  | Hcopycold => int_copy src (int_mk primes)
-  | Hcopywarm => int_copy src (warm (int_mk primes))
-  | Hcopy2 => int_copy src (int_copy src (fst (int_RnsToRing (int_mk primes) (ones (length primes)))))
-  | Hassigncold => int_assign int_default (int_mk primes)
-  | Hassignwarm => int_assign (warm (int_mk other)) (warm (int_mk primes))
-  | Hsetcold | Hsetwarm => int_mk primes
+  | Hfresh => mk primes
+  | Hreuse => fst (int_RnsToRing (mk primes) (ones (length primes)))
+  | Hcopycold => int_copy src (mk primes)
+  | Hcopywarm => int_copy src (warm (mk primes))
+  | Hcopy2 => int_copy src (int_copy src (fst (int_RnsToRing (mk primes) (ones (length primes)))))
+  | Hassigncold => int_assign int_default (mk primes)
+  | Hassignwarm => int_assign (warm (int_mk other)) (warm (mk primes))
+  | Hsetcold | Hsetwarm => mk primes
   end.
 
 (* the harness prints the reciprocals k = 1..n-1 reduced into [0, p_k) (gcdext's cofactor may be negative) *)
@@ -331,17 +338,32 @@ Fixpoint int_back (S : IntRNS) (als : list Z) : IntRNS * list (list Z * Z) :=
       (S2, (rr, w) :: rest)
   end.
 
-(* int: (mixrad, V, P, [(rns(a_j), back_j)], ck, V2) *)
-Definition int_run (src : cksrc) (h : hist) (primes other residu als : list Z)
-  : list Z * Z * Z * list (list Z * Z) * list Z * Z :=
-  let S0 := int_obtain src h primes other in
+(* which entry point the harness calls FIRST on the object it obtained (the caches are observed before and after first use) *)
+Inductive first_op := Fmix | Fring | Frecip | Frecipi | Fprod | Frns.
+Definition last1 (l : list Z) : list Z := match rev l with [] => [] | x :: _ => [x] end.
+Definition int_first (o : first_op) (S : IntRNS) (residu : list Z) (a : Z) : IntRNS * list Z :=
+  match o with
+  | Fmix => int_RnsToMixedRadix S residu
+  | Fring => let '(S', v) := int_RnsToRing S residu in (S', [v])
+  | Frecip => let '(S', ck) := int_Reciprocals S in (S', ck_canon (i_primes S') ck)
+  | Frecipi => let '(S', ck) := int_Reciprocals S in (S', last1 (ck_canon (i_primes S') ck))   (* reciprocal(n-1) *)
+  | Fprod => let '(S', p) := int_product S in (S', [p])
+  | Frns => (S, int_RingToRns S a)
+  end.
+
+(* int: (mixrad, V, P, [(rns(a_j), back_j)], ck, V2, P2, first) *)
+Definition int_run (src : cksrc) (mk : list Z -> IntRNS) (o : first_op) (h : hist) (primes other residu als : list Z)
+  : list Z * Z * Z * list (list Z * Z) * list Z * Z * Z * list Z :=
+  let S00 := int_obtain src mk h primes other in
+  let '(S0, first) := int_first o S00 residu (hd 0 als) in
   let '(S1, mix) := int_RnsToMixedRadix S0 residu in
   let '(S2, V) := int_RnsToRing S1 residu in
   let '(S3, P) := int_product S2 in
   let '(S3', rrs) := int_back S3 als in
   let '(S4, ck) := int_Reciprocals S3' in
   let '(S5, V2) := int_RnsToRing S4 residu in
-  (mix, V, P, rrs, ck_canon primes ck, V2).
+  let '(S6, P2) := int_product S5 in
+  (mix, V, P, rrs, ck_canon primes ck, V2, P2, first).
 
 Definition dom_obtain (h : hist) (primes other : list Z) : DomRNS :=
   let warm S := fst (dom_RnsToRing S (ones (length (d_primes S)))) in
@@ -367,15 +389,25 @@ Fixpoint dom_back (S : DomRNS) (als : list Z) : DomRNS * list (list Z * Z) :=
       (S2, (rr, w) :: rest)
   end.
 
-Definition dom_run (h : hist) (primes other residu als : list Z)
-  : list Z * Z * list (list Z * Z) * list Z * Z :=
-  let S0 := dom_obtain h primes other in
+Definition dom_first (o : first_op) (S : DomRNS) (residu : list Z) (a : Z) : DomRNS * list Z :=
+  match o with
+  | Fmix | Fprod => dom_RnsToMixedRadix S residu
+  | Fring => let '(S', v) := dom_RnsToRing S residu in (S', [v])
+  | Frecip => let '(S', ck) := dom_Reciprocals S in (S', tl ck)
+  | Frecipi => let '(S', ck) := dom_Reciprocals S in (S', last1 (tl ck))
+  | Frns => (S, dom_RingToRns S a)
+  end.
+
+Definition dom_run (o : first_op) (h : hist) (primes other residu als : list Z)
+  : list Z * Z * list (list Z * Z) * list Z * Z * list Z :=
+  let S00 := dom_obtain h primes other in
+  let '(S0, first) := dom_first o S00 residu (hd 0 als) in
   let '(S1, mix) := dom_RnsToMixedRadix S0 residu in
   let '(S2, V) := dom_RnsToRing S1 residu in
   let '(S2', rrs) := dom_back S2 als in
   let '(S3, ck) := dom_Reciprocals S2' in
   let '(S4, V2) := dom_RnsToRing S3 residu in
-  (mix, V, rrs, tl ck, V2).
+  (mix, V, rrs, tl ck, V2, first).
 
 (* ------------------------------------------------------------------------------------------
    RNSsystem<RING, ModularBalanced<T>>: the same code, every domain operation returning the representative of least
